@@ -49,6 +49,11 @@ pub struct HCirc {
     /// negative; a size-1 register named without index; upper-case CX; extra blanks and comments)
     #[serde(default)]
     pub style: u64,
+    /// 0 = no user-defined gates; otherwise a seed from which the printer derives, per
+    /// statement, whether the gate is called through a tower of 1..24 nested `gate` definitions
+    /// (parameters and qubit arguments handed down level by level)
+    #[serde(default)]
+    pub defs: u64,
 }
 
 impl GK {
@@ -129,6 +134,7 @@ impl HCirc {
             regs: vec![n],
             gates: vec![],
             style: 0,
+            defs: 0,
         }
     }
     pub fn is_exact(&self) -> bool {
@@ -207,10 +213,53 @@ impl HCirc {
                     3 => ";\n\n",
                     _ => ";\n",
                 };
+                let w = if self.defs == 0 { 1 } else { crate::decider::mix(self.defs, i as u64) };
+                if w % 3 == 0 {
+                    return self.through_definitions(i, g, w >> 8);
+                }
                 s
             })
             .collect()
     }
+    /// Statement i as a call of a user-defined gate that reaches the real gate through a tower
+    /// of nested definitions (all printed right before the call).
+    fn through_definitions(&self, i: usize, g: &HGate, w: u64) -> String {
+        let depth = if w % 2 == 0 { 1 + (w >> 4) % 3 } else { 1 + (w >> 4) % 24 } as usize;
+        let formals = ["a", "b", "c"];
+        let ar = g.k.arity();
+        let fl = formals[..ar].join(",");
+        let param = match g.k {
+            GK::Rz(n, d) | GK::Rx(n, d) => Some(phase_expr(n, d)),
+            GK::RzMix(a, n, d) | GK::RxMix(a, n, d) => Some(mixed_expr(a, n, d, 0)),
+            _ => None,
+        };
+        let (pf, pu) = if param.is_some() { ("(t)", "(t)") } else { ("", "") };
+        let mut s = String::new();
+        // level 0 applies the gate itself
+        s += &format!("gate u{i}_0{pf} {fl} {{ {}{pu} {fl}; }}\n", g.k.name());
+        // every further level calls the one below; an odd number of them reverses the arguments
+        let mut reversed = false;
+        for l in 1..depth {
+            let rev = ar >= 2 && (w >> (12 + l)) & 1 == 1;
+            let args = if rev {
+                reversed = !reversed;
+                let mut f: Vec<&str> = formals[..ar].to_vec();
+                f.reverse();
+                f.join(",")
+            } else {
+                fl.clone()
+            };
+            s += &format!("gate u{i}_{l}{pf} {fl} {{ u{i}_{}{pu} {args}; }}\n", l - 1);
+        }
+        let mut qs: Vec<String> = g.qs.iter().map(|&q| self.qname(q)).collect();
+        if reversed {
+            qs.reverse();
+        }
+        let call_param = param.map(|p| format!("({p})")).unwrap_or_default();
+        s += &format!("u{i}_{}{call_param} {};\n", depth - 1, qs.join(", "));
+        s
+    }
+
     pub fn to_qasm(&self) -> String {
         let mut s = self.qasm_header();
         for st in self.qasm_statements() {
